@@ -37,37 +37,6 @@ def observer_entries(P, cls: str) -> list[str]:
     return out
 
 
-def find_dispatch_site(P):
-    """(class, FuncInfo) of the method of an EventDispatcher subclass that calls <handler>.dispatch(event)."""
-    sites = []
-    for c in P.subclasses("EventDispatcher"):
-        ci = P.classes[c]
-        for m, fi in ci.methods.items():
-            for n in ast.walk(fi.node):
-                if isinstance(n, ast.Call) and isinstance(n.func, ast.Attribute) and n.func.attr == "dispatch":
-                    sites.append((c, fi))
-                    break
-    if not sites:
-        raise AnalysisError("anchor vanished: no <handler>.dispatch(event) call in any EventDispatcher subclass")
-    return sites
-
-
-def snapshot_of(text: str) -> str | None:
-    """If text is a snapshot expression of a collection, return the collection's text."""
-    t = text.strip()
-    m = re.fullmatch(r"(.+)\.copy\(\)", t)
-    if m:
-        return m.group(1)
-    for f in SNAPSHOT_FUNCS:
-        m = re.fullmatch(rf"{f}\((.+)\)", t)
-        if m:
-            return m.group(1)
-    m = re.fullmatch(r"[\[(]\*(.+?),?[\])]", t)
-    if m:
-        return m.group(1)
-    return None
-
-
 def run(ctx) -> None:
     P = ctx.P
     RG = ctx.rule(
@@ -146,113 +115,9 @@ def run(ctx) -> None:
     assigns = lock_assignments(P, "BaseObserver", "_lock")
     ctx.check(assigns == ["BaseObserver.__init__"], RL, "BaseObserver._lock", f"observer lock (re)bound in {assigns}", P.cls("BaseObserver").loc)
 
-    # ---------------------------------------------------------------- dispatch shape
-    for cls, fi in find_dispatch_site(P):
-        cfg = ThreadCfg(P, no_inline={"dispatch", "join"}, follow_attrs=False)
-        paths = Enumerator(cfg).run(fi, selfcls=cls)
-        ctx.count("dispatch_site_paths", len(paths))
-        loc = fi.loc
-        site = f"{cls}.{fi.name}"
-        found_loop = False
-        lock_ok = True
-        for e, held, p in walk_with_locks(paths, lambda s: s):
-            if e.kind == "call" and e.extra.get("func", "").endswith(".dispatch"):
-                if held.get("self._lock", 0) <= 0:
-                    lock_ok = False
-        ctx.check(lock_ok, RD, f"{site} (iii) under-lock", "handler.dispatch() is called without the observer lock held", loc)
-        for p in paths:
-            loops = [e for e in p.evs if e.kind == "loop"]
-            for L in loops:
-                body = L.extra["paths"]
-                if not any(x.kind == "call" and x.extra.get("func", "").endswith(".dispatch") for b in body for x in b.evs):
-                    continue
-                found_loop = True
-                # (i) snapshot keyed by the dequeued watch
-                coll = snapshot_of(L.text)
-                okc = coll is not None and re.fullmatch(r"self\._handlers\[(.+)\]|self\._handlers\.get\((.+?)(,.*)?\)", coll) is not None
-                key = None
-                if okc:
-                    m = re.fullmatch(r"self\._handlers\[(.+)\]|self\._handlers\.get\((.+?)(,.*)?\)", coll)
-                    key = m.group(1) or m.group(2)
-                ctx.check(
-                    okc,
-                    RD,
-                    f"{site} (i) snapshot",
-                    f"the dispatch loop iterates `{L.text}`: not a snapshot (copy/set/list/tuple/frozenset/sorted/[*x]) of self._handlers[<watch>]",
-                    loc,
-                    {"iter": L.text},
-                )
-                # the key is the second component of the dequeued entry
-                deq = key is not None and re.search(r"\.get\([^)]*\)\[1\]$|\.get_nowait\(\)\[1\]$", key) is not None
-                ctx.check(
-                    bool(deq),
-                    RW,
-                    f"{site} consumer-key",
-                    f"handlers are looked up under `{key}`, which is not the second component of the dequeued entry",
-                    loc,
-                )
-                # (ii) + (iv): per body path
-                ok_ii = ok_iv = True
-                msg_ii = msg_iv = ""
-                for b in body:
-                    disp = [x for x in b.evs if x.kind == "call" and x.extra.get("func", "").endswith(".dispatch")]
-                    if len(disp) > 1:
-                        ok_iv, msg_iv = False, f"{len(disp)} dispatch calls on one iteration path"
-                    mem_true = [
-                        a
-                        for a, t in b.val.items()
-                        if t and " in " in a and a.split(" in ")[0].startswith("$elem(") and "self._handlers" in a.split(" in ", 1)[1]
-                    ]
-                    mem_any = [a for a, t in b.val.items() if " in " in a and a.split(" in ")[0].startswith("$elem(")]
-                    # freshness: the membership test must *read the live registry when it runs* — its own source text reads
-                    # self._handlers[...] , or a name bound inside this iteration to such a read.  (After term substitution
-                    # an alias bound before the loop looks identical, so this is decided on the unsubstituted test.)
-                    fresh = []
-                    for x in b.evs:
-                        if x.kind == "cond" and x.extra.get("truth") and x.text in mem_true:
-                            raw = x.raw
-                            rhs = raw.split(" in ", 1)[1] if " in " in raw else raw
-                            if "self._handlers" in rhs:
-                                fresh.append(x.text)
-                            else:
-                                nm = rhs.strip().split("[")[0].split(".")[0]
-                                bound_here = [y for y in b.evs if y.kind == "assign" and y.extra.get("name") == nm and "self._handlers" in (y.raw or "") and ".copy()" not in (y.raw or "") and not any(f + "(" in (y.raw or "") for f in SNAPSHOT_FUNCS)]
-                                if bound_here:
-                                    fresh.append(x.text)
-                    if disp and mem_true and not fresh:
-                        ok_ii = False
-                        msg_ii = (
-                            "the membership re-check does not read the live registry: it tests against a value bound before the loop "
-                            f"(snapshot or alias), so a handler removed re-entrantly during the loop is still called"
-                        )
-                    if disp:
-                        if not mem_true:
-                            ok_ii = False
-                            msg_ii = (
-                                "dispatch reached without a positive membership test of the handler against a fresh read of "
-                                f"self._handlers[...] (tests on this path: {mem_any or 'none'})"
-                            )
-                        elif key is not None and not any(f"self._handlers[{key}]" in a or f"self._handlers.get({key}" in a for a in mem_true):
-                            ok_ii = False
-                            msg_ii = f"membership is re-checked under a different key than the snapshot ({mem_true})"
-                    else:
-                        if mem_true:
-                            ok_iv, msg_iv = False, "handler still registered but not dispatched on this iteration path"
-                ctx.check(ok_ii, RD, f"{site} (ii) live-recheck", msg_ii, loc)
-                ctx.check(ok_iv, RD, f"{site} (iv) one-dispatch-per-iteration", msg_iv, loc)
-        if not found_loop:
-            ctx.viol(RD, f"{site} (i) snapshot", "handler.dispatch() is not called from a loop over the handler collection", loc)
-        # (v) sentinel first
-        ok_v = True
-        for p in paths:
-            sent = [(a, t) for a, t in p.val.items() if "stop_event" in a]
-            has_disp_loop = any(e.kind == "loop" for e in p.evs)
-            if has_disp_loop and not any(not t for a, t in sent):
-                ok_v = False
-            if any(t for a, t in sent) and has_disp_loop:
-                ok_v = False
-        ctx.check(ok_v, RD, f"{site} (v) sentinel-first", "the stop sentinel is not excluded before the dequeued entry is unpacked / dispatched", loc)
-        ctx.sample({"dispatch_site": site, "paths": len(paths)})
+    from ..dispatch import dispatch_shape
+
+    dispatch_shape(ctx, RD, RW, RD)
 
     # ---------------------------------------------------------------- producers
     nprod = 0
